@@ -142,8 +142,11 @@ Example ex_plain : forallb qd_char [83;101;116;45;67;111;111;107;105;101;44;32;6
 Proof. vm_compute. split; reflexivity. Qed.
 Example ex_simple : simple [109;97;120;45;97;103;101;61;53;44;32;110;111;45;115;116;111;114;101] = true.
 Proof. vm_compute. reflexivity. Qed.
-Example ex_roundtrip_hyp : exists st, cc_parse ex_known = Some st /\ cc_ok st = true /\ other st = [] /\
-  cmask st = 518 /\ max_age st = 60%Z /\ max_stale st = MAX_STALE_ANY /\ no_cache st <> [].
-Proof. eexists. vm_compute. repeat split; try reflexivity; discriminate. Qed.
-Example ex_roundtrip_text : exists st, cc_parse ex_known = Some st /\ cc_pack st <> ex_known.
-Proof. eexists. split; [vm_compute; reflexivity|vm_compute; discriminate]. Qed.
+Example ex_roundtrip_hyp :
+  match cc_parse ex_known with
+  | Some st => cc_ok st && (lenN (other st) =? 0) && (cmask st =? 518) && (max_age st =? 60)%Z &&
+               (max_stale st =? MAX_STALE_ANY)%Z && negb (lenN (no_cache st) =? 0) &&
+               negb (list_eqb (cc_pack st) ex_known)
+  | None => false
+  end = true.
+Proof. vm_compute. reflexivity. Qed.
